@@ -109,8 +109,8 @@ func (s *SencBox) ReadButNotParsed() bool {
 
 // DecodeSenc - box-specific decode
 func DecodeSenc(hdr BoxHeader, startPos uint64, r io.Reader) (Box, error) {
-	if hdr.Size < 16 {
-		return nil, fmt.Errorf("box size %d less than min size 16", hdr.Size)
+	if hdr.payloadLen() < 8 {
+		return nil, fmt.Errorf("box size %d less than min size %d", hdr.Size, hdr.Hdrlen+8)
 	}
 	data, err := readBoxBody(r, hdr)
 	if err != nil {
@@ -153,8 +153,8 @@ func DecodeSenc(hdr BoxHeader, startPos uint64, r io.Reader) (Box, error) {
 
 // DecodeSencSR - box-specific decode
 func DecodeSencSR(hdr BoxHeader, startPos uint64, sr bits.SliceReader) (Box, error) {
-	if hdr.Size < 16 {
-		return nil, fmt.Errorf("box size %d less than min size 16", hdr.Size)
+	if hdr.payloadLen() < 8 {
+		return nil, fmt.Errorf("box size %d less than min size %d", hdr.Size, hdr.Hdrlen+8)
 	}
 
 	versionAndFlags := sr.ReadUint32()
